@@ -120,6 +120,24 @@ pub struct SimResult {
     pub events: u64,
 }
 
+impl SimResult {
+    /// everything observable about an execution, as one string (determinism self-checks)
+    pub fn fingerprint(&self) -> String {
+        let offs: Vec<&Vec<i128>> = self.snapshots.iter().map(|s| &s.offsets).collect();
+        format!("{:?}|{:?}|{:?}|{:?}|{:?}|{:?}|{}", self.sent, self.delivered, self.transitions, self.clock_cmds, offs, self.choice_points, self.events)
+    }
+}
+
+/// runs one execution twice and exits with a machinery error when the two differ
+pub fn assert_deterministic(spec: &NetSpec, faults: &[(u64, Fault)], dev: &[(usize, usize)], snap: u64) {
+    let a = simulate(spec, faults, &mut Choices::with(dev), snap).fingerprint();
+    let b = simulate(spec, faults, &mut Choices::with(dev), snap).fingerprint();
+    if a != b {
+        eprintln!("machinery error: the network simulation is not deterministic (two runs of one choice vector differ)");
+        std::process::exit(2);
+    }
+}
+
 struct Queue {
     heap: BinaryHeap<Reverse<(u64, u64, EvKind)>>,
     seq: u64,
